@@ -111,6 +111,10 @@ def effective_table(cls, attr):
     return getattr(cls, attr)
 
 
+ALLOWED_ON_SAFE = set()       # tags an application has itself opted in to the safe loaders (registered shard)
+BASE_TABLES_MAY_BE_USED = [False]
+
+
 def table_violations():
     out = []
     classes = {n: getattr(yaml, n) for n in yamlapi.loaders(SAFE + BASE)}
@@ -120,13 +124,13 @@ def table_violations():
         cons = effective_table(cls, 'yaml_constructors')
         multi = effective_table(cls, 'yaml_multi_constructors')
         if n.startswith(('Base', 'CBase')):
-            if cons or multi:
+            if (cons or multi) and not BASE_TABLES_MAY_BE_USED[0]:
                 out.append((n, 'Base constructor tables are not empty: %s %s' % (sorted(map(str, cons)), sorted(map(str, multi)))))
             continue
         for k in cons:
             if k is None:
                 continue
-            if not (isinstance(k, str) and k.startswith(P) and k[len(P):] in CORE):
+            if not (isinstance(k, str) and k.startswith(P) and k[len(P):] in CORE) and k not in ALLOWED_ON_SAFE:
                 out.append((n, 'constructor registered for a non-core tag: %r' % (k,)))
         if multi:
             out.append((n, 'multi-constructors registered on a safe class: %s' % sorted(map(str, multi))))
@@ -386,7 +390,7 @@ def app_registrations(canary):
     yaml.add_implicit_resolver('!at', re.compile('^@[a-z]+$'), ['@'])
     yaml.add_path_resolver('!path', ['pk'], dict)
     plain = ['1.2.3', '- 1.2.3\n- 10.20.30', 'v: 1.2.3', 'pk: {a: 1}', 'pk: [a]', '"@abc"', 'k: 2001-01-01']
-    return tags, plain, fns
+    return tags, plain, fns, mk
 
 
 def selftest(h, ctx):
@@ -421,7 +425,7 @@ def run(spec, ctx):
             check_safe_doc(h, text, dict(info, untagged=un, tagged=True), ctx, True, un)
     elif kind == 'registered':
         base_plain = None
-        tags, plain, fns = app_registrations(h.canary)
+        tags, plain, fns, mk = app_registrations(h.canary)
         d0 = confine.state_digest()          # the registrations themselves are the application's doing
         h.conf.targets.update({id(f): n for n, f in fns.items()})
         h.conf.keep.extend(fns.values())
@@ -450,6 +454,47 @@ def run(spec, ctx):
                     if done >= 6:
                         break
         ctx.sample({'class': 'application-registered tags', 'tags': tags[:12]})
+        # Two more things applications do, each followed by the same questions.  (1) A constructor registered on the Base
+        # loaders themselves (they are loaders like any other): the safe loaders, which share ancestors with them, must
+        # not see it, and must keep their closed table and their raising fallback.  (2) An application class that opts in
+        # to the safe loaders (yaml_loader = [SafeLoader, CSafeLoader]): that one tag is the application's decision, but a
+        # class defined afterwards with the default loaders must not follow it there.
+        BASE_TABLES_MAY_BE_USED[0] = True
+        for bn in yamlapi.loaders(['BaseLoader', 'CBaseLoader']):
+            yaml.add_constructor('!onbase', mk('onbase_' + bn), Loader=getattr(yaml, bn))
+            getattr(yaml, bn).add_multi_constructor('!onbasem:', mk('onbasem_' + bn, True))
+        h.conf.flag_ids.update({id(f): n for n, f in fns.items()})
+        h.conf.targets.update({id(f): n for n, f in fns.items()})
+        h.conf.keep.extend(fns.values())
+
+        class OptIn(yaml.YAMLObject):
+            yaml_tag = '!optin'
+            yaml_loader = [getattr(yaml, n) for n in yamlapi.loaders(['SafeLoader', 'CSafeLoader'])]
+        ALLOWED_ON_SAFE.add('!optin')
+
+        class AfterOptIn(yaml.YAMLObject):
+            yaml_tag = '!afteroptin'
+
+        class AfterOptIn2(yaml.YAMLObject):
+            yaml_tag = '!afteroptin2'
+            yaml_loader = yaml.FullLoader
+        KEEP_ALIVE.extend([OptIn, AfterOptIn, AfterOptIn2])
+        d0 = confine.state_digest()
+        all_names = h.loader_names
+        h.loader_names = [n for n in all_names if n not in BASE]
+        try:
+            for tag in ('!onbase', '!onbasem:x', '!afteroptin', '!afteroptin2', P + 'python/name:os.system', '!foo'):
+                for nk in TD.KINDS:
+                    for c in ('root', 'seq_item', 'map_value', 'map_key', 'anchored_aliased', 'second_doc', 'in_set'):
+                        rr = TD.render(tag, nk, c, 'bangbang' if not tag.startswith('!onbasem') else 'verbatim')
+                        if rr is None:
+                            continue
+                        un = TD.render('', nk, c, 'bangbang')
+                        ctx.case(core.h64('late', rr[0]), True, ['registered_late', 'kind:' + nk, 'ctx:' + c])
+                        check_safe_doc(h, rr[0], dict(rr[1], untagged=un[0], tagged=True), ctx, True, un[0])
+        finally:
+            h.loader_names = all_names
+        ctx.stat('late_registration_batches')
         for t in plain:
             ctx.case(core.h64('plain', t), True, ['registered_plain'])
             for lname in h.loader_names:
